@@ -27,7 +27,13 @@ def run(ctx):
     ctx.rule("R15-6", "the positional-parameter pass writes every rewritten word back into the slot it was read from: its "
                       "hand-written position counter advances exactly once per token and no recorded position is used "
                       "after the vector's length changed (E-EDITLIST)")
+    ctx.rule("R15-7", "the status of a script / function / source is read from the LAST element of the result list the "
+                      "interpreter returns, so that list only grows: in run_exp, run_exp_if / _for / _while / _test_br, "
+                      "run_lines and run_script the Vec<CommandResult> is only pushed / appended / extended - never cleared, "
+                      "truncated, popped, drained or replaced (a line that yields no result, e.g. a comment, must not erase "
+                      "the earlier ones)")
     for crate in ctx.crates:
+        accumulator_rule(ctx, crate)
         from .. import editlist
         n_ = editlist.rule(ctx, crate, "R15-6", ["scripting::expand_args_in_tokens"])
         ctx.floor("R15-6", crate, "positional pass with a token vector", n_, 1)
@@ -324,3 +330,41 @@ def func_args(ctx, crate):
                     ok, detail = True, None
     ctx.ob("R15-2", b.path, "every word of the call is pushed as one positional argument", ok,
            key="R15-2|%s|all-words" % b.path, where=b.loc(run[0]), crate=crate.kind, detail=detail)
+
+
+ACCUMULATORS = ["scripting::run_exp", "scripting::run_exp_if", "scripting::run_exp_for", "scripting::run_exp_while",
+                "scripting::run_exp_test_br", "scripting::run_lines", "scripting::run_script"]
+SHRINKING = {"clear", "truncate", "pop", "drain", "retain", "remove", "swap_remove", "split_off", "dedup", "resize", "set_len",
+             "take", "replace"}
+
+
+def accumulator_rule(ctx, crate):
+    n = 0
+    for p in ACCUMULATORS:
+        b = crate.fn(p)
+        if b is None:
+            continue
+        lists = [l for l, loc in enumerate(b.locals) if loc["ty"] == "std::vec::Vec<types::CommandResult>" and l in b.names]
+        # the accumulator: the list that the function returns (directly or as a tuple component)
+        rets = [b.def_expr(bi, si) for bi, si in b.defs.get(0, [])]
+        lists = [l for l in lists if any(
+            flow.backward(b, e, lambda z, l=l: z[0] == "var" and z[1] == l, through_containers=False) is not None for e in rets)]
+        for l in lists:
+            bad = []
+            for bb, t, c in b.calls():
+                a = b.call_args(bb)
+                if a and mir.root_local_expr(b.expand_vars(strip_sites(a[0]))) == l and last_seg(c) in SHRINKING and (
+                        "Vec" in c or "mem::" in c):
+                    bad.append((bb, last_seg(c)))
+            # reassignment inside a loop (the initial `Vec::new()` is outside)
+            for bi, si in b.defs.get(l, []):
+                if any(bi in blocks for blocks in b.loops().values()):
+                    e = strip_sites(b.def_expr(bi, si))
+                    if not (e[0] == "var" and e[1] == l):
+                        bad.append((bi, "reassigned in a loop"))
+            n += 1
+            ctx.ob("R15-7", p, "result list `%s` only grows" % b.names.get(l), not bad,
+                   key="R15-7|%s|shrinks|%s" % (p, b.names.get(l)), where=b.loc(bad[0][0]) if bad else "", crate=crate.kind,
+                   detail=None if not bad else "%s: a line that produces no result (a comment line) after a failing command "
+                   "leaves the list empty and the status falls back to 0" % bad[0][1])
+    ctx.floor("R15-7", crate, "result lists in the interpreter", n, 5)
